@@ -23,7 +23,7 @@ pub fn info() -> PropInfo {
         id: "C09",
         run,
         replay,
-        rule: "cases = histories of builder calls: BytesStart::new + push_attribute/extend_attributes/with_attributes/set_name/clear_attributes written as Start or Empty, BytesEnd::new, BytesText::new, BytesCData::escaped (all pieces), BytesDecl::new, BytesPI::new, comments, DOCTYPE, Writer::create_element(..).with_attribute(s)..write_{text,cdata,pi}_content/write_empty/write_inner_content; payload strings from a markup-heavy generator. Reading the written bytes must give the constructed sequence after coalescing adjacent text events/CDATA pieces and dropping empty text; keys byte-equal, attribute values and text unescape to the original strings, CDATA concatenates to the original, declaration fields read back; the async writer (through a sink that accepts partial writes and returns Pending) produces the same bytes. Non-trivial = at least one payload contains a special character and the history contains an in-place edit or an element-builder call.",
+        rule: "cases = histories of builder calls: BytesStart::new + push_attribute/extend_attributes/with_attributes/set_name/clear_attributes written as Start or Empty, BytesEnd::new, BytesText::new, BytesCData::escaped (all pieces), BytesDecl::new, BytesPI::new, comments, DOCTYPE, Writer::create_element(..).with_attribute(s)..write_{text,cdata,pi}_content/write_empty/write_inner_content; payload strings from a markup-heavy generator. Reading the written bytes must give the constructed sequence after coalescing adjacent text events/CDATA pieces and dropping empty text; keys byte-equal, attribute values and text unescape to the original strings, CDATA concatenates to the original, declaration fields read back; the async writer (through a sink that accepts partial writes and returns Pending) produces the same bytes. Non-trivial = at least one payload contains a special character and the history contains an in-place edit or an element-builder call. The synchronous writer is also run through a sink that accepts partial (plain and vectored) writes and answers some calls with ErrorKind::Interrupted: same bytes as into a Vec. Payloads, names and builder-call lists occasionally long (16..300 characters, 20..45 calls).",
         assumptions: &["names are XML-name-like (no blanks, no '>'), comment/PI/DOCTYPE content is free of its own terminator (documented preconditions)", "declarations name UTF-8 (or no encoding): the written bytes are UTF-8"],
         level: "exploration",
         variants: &["full", "min"],
